@@ -200,6 +200,100 @@ def run(ctx):
         ctx.ob('5i destination-salt-is-the-source-salt', 'K3-guard', mg.path,
                'the salt stored in the opened destination is compared with the salt of the source, and a mismatch is reported as an error',
                bool(found) and guarded, 'no comparison of the destination\'s stored salt with the source salt' if not found else 'the comparison does not lead to an error return')
+    # 6c. a loop over "all columns" is not bounded by the column count squeezed into a column id: 256 columns are valid (ids 0..=255)
+    # and `256 as u8 == 0` makes the range empty - nothing is selected, walked or copied and migrate returns Ok (F60)
+    COLS = {'.Options.columns', '.Metadata.columns', '.DbInner.columns'}
+    nrange = 0
+    for fb in sorted(F.bodies.values(), key=lambda x: x.path):
+        if not fb.path.startswith('migration::'):
+            continue
+        defs = fb.defs()
+        for bi in fb.normal_blocks():
+            for st_ in fb.blocks[bi]['s']:
+                if st_['k'] != 'assign' or st_['r']['k'] != 'agg' or not st_['r']['ak'].startswith(('Adt:std::ops::Range', 'Adt:core::ops::Range')) or len(st_['r']['a']) < 2:
+                    continue
+                endp = op_place(st_['r']['a'][1])
+                if endp is None:
+                    continue
+                sl = backward_slice(fb, [endp])
+                if not (sl.fields & COLS) or not any(re.search(r'::len$', c) for c in sl.calls):
+                    continue
+                nrange += 1
+                # the value chain from the count to the range end (moves and casts only: the slice also reaches how the options were BUILT)
+                narrowed = []
+                l = endp[0]
+                for _ in range(8):
+                    ds = [d for d in defs.get(l, []) if d[2] == 'assign']
+                    if len(ds) != 1 or len(defs.get(l, [])) != 1:
+                        break
+                    r = ds[0][3]['r']
+                    if r['k'] == 'cast' and r.get('ck') == 'IntToInt':
+                        if r.get('from') == 'usize' and r.get('to') in ('u8', 'i8'):
+                            narrowed.append(l)
+                        l = op_local(r['a'][0])
+                    elif r['k'] == 'use' and op_local(r['a'][0]) is not None:
+                        l = op_local(r['a'][0])
+                    else:
+                        break
+                    if l is None:
+                        break
+                ctx.ob('6c column-range-not-narrowed %s #%d' % (fb.path, nrange), 'K7-narrowing-cast', fb.path,
+                       'the end of a range over the columns is the column count itself, not the count cast to a column id (256 columns: `256 as u8 == 0`, the loop body never runs)',
+                       not narrowed, 'range end derives from `len() as u8` (locals %s)' % narrowed if narrowed else '', fb.loc(bi))
+    ctx.ob('6c0 column-ranges', 'anchor', 'migration::', 'the loops of the migration module that range over the column count were found', nrange >= 2, 'found %d' % nrange)
+    if mg:
+        # 7a. in place: "the path set in `to` is ignored" - the destination handle the walk commits into, and the directory the migrated
+        # column files are taken from, is a private directory derived from the SOURCE path. With the caller's to.path a database that
+        # lives there (a trial copy migrated earlier with the same options passes every check) is merged into the result and loses
+        # its column files (F61)
+        ow = None
+        for l, nm in mg.names.items():
+            if nm == 'overwrite' and 1 <= l <= mg.argc:
+                ow = l
+        frm = [l for l, nm in mg.names.items() if nm == 'from' and 1 <= l <= mg.argc]
+        stores = []
+        for bi in mg.normal_blocks():
+            for st_ in mg.blocks[bi]['s']:
+                if st_['k'] == 'assign' and '.Options.path' in [e for e in st_['p'][1:] if isinstance(e, str)]:
+                    pls = [op_place(a) for a in st_['r'].get('a', []) if op_place(a) is not None] + ([st_['r']['p']] if st_['r'].get('p') else [])
+                    sl = backward_slice(mg, pls) if pls else None
+                    if sl and frm and (set(frm) & sl.params):
+                        stores.append(bi)
+            t = mg.term(bi)
+            # `to.path = ..` where the old value needs dropping is a DropAndReplace / or a call result assigned to the field
+            if t['k'] == 'call' and t.get('d') and '.Options.path' in [e for e in t['d'][1:] if isinstance(e, str)]:
+                sl = backward_slice(mg, [op_place(a) for a in t['a'] if op_place(a) is not None])
+                if frm and (set(frm) & sl.params):
+                    stores.append(bi)
+        ctx.ob('7a0 in-place-staging-anchor', 'anchor', mg.path, 'migrate has the `overwrite` and `from` parameters and opens the destination', ow is not None and bool(frm) and bool(oc), 'overwrite %s from %s opens %s' % (ow, frm, oc))
+        if ow is not None and frm and oc:
+            rem = lib.prune_bool_param(mg, ow, True)
+            w = mg.find_path([0], set(oc), removed=set(stores), removed_edges=frozenset(rem)) if True else None
+            ctx.ob('7a in-place-destination-is-private', 'K1-must-pass', mg.path,
+                   'with overwrite set, before the destination is opened its path is replaced by a directory derived from the source path (the path in `to` is ignored, as documented): '
+                   'a database living at to.path is otherwise merged into the migrated column and stripped of its files', w is None,
+                   '' if w is None else 'destination opened at the caller\'s path: ' + lib.short_path(mg, w))
+    # 5n. what Db::close reports includes the failure of the final drain: commits still queued when the log worker leaves are processed by
+    # kill_logs on the closing thread; its error must reach the slot close() reads (F62)
+    di = ctx.body('db::Db::drop_inner')
+    cl_ = ctx.body('db::Db::close')
+    if di and cl_:
+        kl = lib.sites_reaching(di, ['db::DbInner::kill_logs'])
+        rec = lib.sites_reaching(di, ['db::DbInner::store_err']) + [bi for bi in di.normal_blocks() for st_ in di.blocks[bi]['s'] if st_['k'] == 'assign' and '.DbInner.bg_err' in [e for e in st_['p'][1:] if isinstance(e, str)]]
+        reads_slot = '.DbInner.bg_err' in set().union(*[backward_slice(cl_, [[0]]).fields])
+        ctx.ob('5n0 close-anchor', 'anchor', di.path, 'drop_inner runs the final drain (kill_logs) and close() answers from DbInner.bg_err', len(kl) >= 1 and reads_slot, 'kill_logs %s, close reads bg_err: %s' % (kl, reads_slot))
+        for n, k in enumerate(kl):
+            errs = set(lib.result_err_targets(di, k))
+            ok = bool(errs) and bool(rec)
+            if ok:
+                # from every Err target of the drain, the return is not reached without recording
+                for e in errs:
+                    w = di.find_path([e], set(di.return_blocks()), removed=set(rec))
+                    if w is not None and e not in rec:
+                        ok = False
+            ctx.ob('5n shutdown-failure-reaches-close #%d' % n, 'K1-must-pass', di.path,
+                   'an error of the final drain is recorded where Db::close looks (bg_err): the last batches of a migration are often processed by the closing thread, not by the workers', ok,
+                   'Err targets %s, recording sites %s' % (sorted(errs), rec), di.loc(k))
     if mg:
         ins = [bi for bi, t in mg.calls() if call_matches(t, ['re:BTreeSet.*::insert$', 're:BTreeSet.*Extend<.*>>::extend$', 're:BTreeSet.*::extend$', 're:BTreeSet.*::append$']) and bi in mg.normal_blocks()]
         # the automatic selection: an insert that depends on a comparison of source and destination column options
@@ -216,7 +310,14 @@ def run(ctx):
                     fields = set(fields) | sl2.fields
             level0 = set(calls)
             calls = lib.shallow_calls(F, calls, owner=mg.path)
-            if any(re.search(r'ColumnOptions as std::cmp::PartialEq>::(eq|ne)$', c) for c in calls) or any(c in ('std::cmp::PartialEq::ne', 'std::cmp::PartialEq::eq') and '.Options.columns' in fields for c in calls):
+            # (an unresolved `!=` counts only where migrate itself, or one of its closures, makes it: the salt comparison inside the
+            # destination open also influences everything after it)
+            near = set(level0)
+            for c in level0:
+                cb = F.body(c)
+                if cb is not None and c.startswith(mg.path + '::{closure'):
+                    near |= set(n for bi3, t3 in cb.calls() for n in core.call_names(t3))
+            if any(re.search(r'ColumnOptions as std::cmp::PartialEq>::(eq|ne)$', c) for c in near) or any(c in ('std::cmp::PartialEq::ne', 'std::cmp::PartialEq::eq') and '.Options.columns' in fields for c in near):
                 ok = True
                 continue
             # custom predicate: every data-affecting field must be read by it
